@@ -225,6 +225,20 @@ def run(ck):
                              observed='segmentation raised %s: %s' % (type(e).__name__, e)))
             continue
         tapered = w.segtype != 0
+        bad0 = invariants(segs, p1, p2, n, r, segtype, tmin, tmax, tapered)
+        if bad0:
+            viol.append(dict(kind='wire', p1=p1, p2=p2, n=n, r=r, segtype=segtype, tmin=tmin, tmax=tmax, observed=bad0))
+        # tapering the other end gives the mirrored taper (lengths in reverse order)
+        if tapered and segtype in (1, 2) and not bad0:
+            try:
+                w2, segs2 = impl_wire(p1, p2, n, r, 3 - segtype, tmin, tmax)
+                l1 = [math.dist(a, b) for a, b in segs]
+                l2 = [math.dist(a, b) for a, b in segs2]
+                if w2.segtype != 0 and any(abs(a - b) > 1e-9 * L for a, b in zip(l1, reversed(l2))):
+                    viol.append(dict(kind='wire', p1=p1, p2=p2, n=n, r=r, segtype=segtype, tmin=tmin, tmax=tmax,
+                                     observed='taper from end %d is not the mirror image of the taper from end %d' % (segtype, 3 - segtype)))
+            except Exception:
+                pass
         ck.case(('wire', n, segtype, tmin is None, tmax is None, tapered), n > 1,
                 sample=dict(kind='wire', n=n, segtype=segtype, tmin=tmin, tmax=tmax, accepted_taper=tapered))
         ck.count('segtype%d_%s' % (segtype, 'tapered' if tapered else 'equal'))
@@ -269,9 +283,6 @@ def run(ck):
                 continue
             dis.append(dict(why='segment table', case=dict(p1=p1, p2=p2, n=n, r=r, segtype=segtype, tmin=tmin, tmax=tmax)))
             continue
-        bad = invariants(segs, p1, p2, n, r, segtype, tmin, tmax, tapered)
-        if bad:
-            viol.append(dict(kind='wire', p1=p1, p2=p2, n=n, r=r, segtype=segtype, tmin=tmin, tmax=tmax, observed=bad))
     # arcs and helices
     for i in range(N // 4):
         n = rng.randint(3, 40)
